@@ -1,0 +1,231 @@
+//! Thin public wrappers around crate-private connection components, for the external
+//! verification harness
+//!
+//! Compiled only with the private `__verif` feature. Every wrapper owns the real component,
+//! forwards calls unchanged and translates arguments and results to plain public types.
+//! `render` is the `Debug` rendering of the complete real object.
+
+use bytes::Bytes;
+
+use super::{
+    assembler::Assembler, mtud::MtuDiscovery, paths::RttEstimator, send_buffer::SendBuffer,
+    spaces::Dedup,
+};
+use crate::{Duration, Instant, MtuDiscoveryConfig, packet::SpaceId};
+
+/// Wrapper around `connection::assembler::Assembler`
+pub struct VerifAssembler(Assembler);
+
+impl VerifAssembler {
+    /// `Assembler::new`
+    #[allow(clippy::new_without_default)]
+    pub fn new() -> Self {
+        Self(Assembler::new())
+    }
+
+    /// `Assembler::insert`; `false` stands for `Err(TooManyChunks)`
+    pub fn insert(&mut self, offset: u64, bytes: Bytes, allocation_size: usize) -> bool {
+        self.0.insert(offset, bytes, allocation_size).is_ok()
+    }
+
+    /// `Assembler::ensure_ordering`; `false` stands for `Err(IllegalOrderedRead)`
+    pub fn ensure_ordering(&mut self, ordered: bool) -> bool {
+        self.0.ensure_ordering(ordered).is_ok()
+    }
+
+    /// `Assembler::read`, returning `(offset, bytes)` of the chunk
+    pub fn read(&mut self, max_length: usize, ordered: bool) -> Option<(u64, Bytes)> {
+        self.0
+            .read(max_length, ordered)
+            .map(|chunk| (chunk.offset, chunk.bytes))
+    }
+
+    /// `Assembler::bytes_read`
+    pub fn bytes_read(&self) -> u64 {
+        self.0.bytes_read()
+    }
+
+    /// `Assembler::clear`
+    pub fn clear(&mut self) {
+        self.0.clear()
+    }
+
+    /// `Assembler::reinit`
+    pub fn reinit(&mut self) {
+        self.0.reinit()
+    }
+
+    /// Complete state
+    pub fn render(&self) -> String {
+        format!("{:?}", self.0)
+    }
+}
+
+/// Wrapper around `connection::send_buffer::SendBuffer`
+pub struct VerifSendBuffer(SendBuffer);
+
+impl VerifSendBuffer {
+    /// `SendBuffer::new`
+    #[allow(clippy::new_without_default)]
+    pub fn new() -> Self {
+        Self(SendBuffer::new())
+    }
+
+    /// `SendBuffer::write`
+    pub fn write(&mut self, data: Bytes) {
+        self.0.write(data)
+    }
+
+    /// `SendBuffer::poll_transmit`, returning `(start, end, encode_length)`
+    pub fn poll_transmit(&mut self, max_len: usize) -> (u64, u64, bool) {
+        let (range, encode_length) = self.0.poll_transmit(max_len);
+        (range.start, range.end, encode_length)
+    }
+
+    /// `SendBuffer::get`
+    pub fn get(&self, start: u64, end: u64) -> &[u8] {
+        self.0.get(start..end)
+    }
+
+    /// `SendBuffer::ack`
+    pub fn ack(&mut self, start: u64, end: u64) {
+        self.0.ack(start..end)
+    }
+
+    /// `SendBuffer::retransmit`
+    pub fn retransmit(&mut self, start: u64, end: u64) {
+        self.0.retransmit(start..end)
+    }
+
+    /// `SendBuffer::retransmit_all_for_0rtt`
+    pub fn retransmit_all_for_0rtt(&mut self) {
+        self.0.retransmit_all_for_0rtt()
+    }
+
+    /// `SendBuffer::offset`
+    pub fn offset(&self) -> u64 {
+        self.0.offset()
+    }
+
+    /// `SendBuffer::is_fully_acked`
+    pub fn is_fully_acked(&self) -> bool {
+        self.0.is_fully_acked()
+    }
+
+    /// `SendBuffer::has_unsent_data`
+    pub fn has_unsent_data(&self) -> bool {
+        self.0.has_unsent_data()
+    }
+
+    /// `SendBuffer::unacked`
+    pub fn unacked(&self) -> u64 {
+        self.0.unacked()
+    }
+
+    /// Complete state
+    pub fn render(&self) -> String {
+        format!("{:?}", self.0)
+    }
+}
+
+/// Wrapper around `connection::spaces::Dedup`
+pub struct VerifDedup(Dedup);
+
+impl VerifDedup {
+    /// `Dedup::new`
+    #[allow(clippy::new_without_default)]
+    pub fn new() -> Self {
+        Self(Dedup::new())
+    }
+
+    /// `Dedup::insert`: whether the packet might be a duplicate
+    pub fn insert(&mut self, packet: u64) -> bool {
+        self.0.insert(packet)
+    }
+
+    /// Complete state
+    pub fn render(&self) -> String {
+        format!("{:?}", self.0)
+    }
+}
+
+/// Wrapper around `connection::mtud::MtuDiscovery`
+pub struct VerifMtuDiscovery(MtuDiscovery);
+
+impl VerifMtuDiscovery {
+    /// `MtuDiscovery::new` with a default `MtuDiscoveryConfig` whose upper bound is replaced
+    pub fn new(
+        initial_plpmtu: u16,
+        min_mtu: u16,
+        peer_max_udp_payload_size: Option<u16>,
+        upper_bound: u16,
+    ) -> Self {
+        let mut config = MtuDiscoveryConfig::default();
+        config.upper_bound(upper_bound);
+        Self(MtuDiscovery::new(
+            initial_plpmtu,
+            min_mtu,
+            peer_max_udp_payload_size,
+            config,
+        ))
+    }
+
+    /// `(interval, minimum_change, black_hole_cooldown)` of the default configuration
+    pub fn default_config() -> (Duration, u16, Duration) {
+        let config = MtuDiscoveryConfig::default();
+        (
+            config.interval,
+            config.minimum_change,
+            config.black_hole_cooldown,
+        )
+    }
+
+    /// `MtuDiscovery::current_mtu`
+    pub fn current_mtu(&self) -> u16 {
+        self.0.current_mtu()
+    }
+
+    /// `MtuDiscovery::poll_transmit`
+    pub fn poll_transmit(&mut self, now: Instant, next_pn: u64) -> Option<u16> {
+        self.0.poll_transmit(now, next_pn)
+    }
+
+    /// `MtuDiscovery::on_acked` in the application data space
+    pub fn on_acked(&mut self, pn: u64, len: u16) -> bool {
+        self.0.on_acked(SpaceId::Data, pn, len)
+    }
+
+    /// `MtuDiscovery::in_flight_mtu_probe`
+    pub fn in_flight_mtu_probe(&self) -> Option<u64> {
+        self.0.in_flight_mtu_probe()
+    }
+
+    /// `MtuDiscovery::on_probe_lost`
+    pub fn on_probe_lost(&mut self) {
+        self.0.on_probe_lost()
+    }
+
+    /// `MtuDiscovery::on_non_probe_lost`
+    pub fn on_non_probe_lost(&mut self, pn: u64, len: u16) {
+        self.0.on_non_probe_lost(pn, len)
+    }
+
+    /// `MtuDiscovery::black_hole_detected`
+    pub fn black_hole_detected(&mut self, now: Instant) -> bool {
+        self.0.black_hole_detected(now)
+    }
+
+    /// Complete state
+    pub fn render(&self) -> String {
+        format!("{:?}", self.0)
+    }
+}
+
+/// `RttEstimator::new(initial)` followed by `update(ack_delay, rtt)` for every sample
+pub fn rtt_estimator(initial: Duration, samples: &[(Duration, Duration)]) -> RttEstimator {
+    let mut rtt = RttEstimator::new(initial);
+    for &(ack_delay, sample) in samples {
+        rtt.update(ack_delay, sample);
+    }
+    rtt
+}
